@@ -3,7 +3,7 @@
 //   go run /verif/translate/bce_inventory.go -repo /repo [-out inventory.json]
 //
 // 1. Bounds checks. Runs `go build -gcflags=-d=ssa/check_bce/debug=1` on the packages api,
-//    masswallet, masswallet/txmgr, masswallet/utils of the repository (production build, no tags)
+//    masswallet, masswallet/txmgr, masswallet/utils, masswallet/keystore of the repository (production build, no tags)
 //    and turns every "Found IsInBounds / IsSliceInBounds" position the compiler could NOT prove
 //    into an entry keyed by (file, enclosing function, source expression text) — never by line
 //    number, so unrelated edits do not move entries. A position that is the `[` of an index or
@@ -56,7 +56,7 @@ func (e *Entry) Key() string {
 	return e.Kind + "|" + e.File + "|" + e.Func + "|" + e.Var + "|" + e.Expr
 }
 
-var packages = []string{"./api", "./masswallet", "./masswallet/txmgr", "./masswallet/utils"}
+var packages = []string{"./api", "./masswallet", "./masswallet/txmgr", "./masswallet/utils", "./masswallet/keystore"}
 
 func text(fset *token.FileSet, n ast.Node) string {
 	var b bytes.Buffer
